@@ -1,7 +1,13 @@
 
+val negb : bool -> bool
+
 type nat =
 | O
 | S of nat
+
+val fst : ('a1 * 'a2) -> 'a1
+
+val snd : ('a1 * 'a2) -> 'a2
 
 val length : 'a1 list -> nat
 
@@ -16,17 +22,20 @@ val compOpp : comparison -> comparison
 
 val add : nat -> nat -> nat
 
-val nth : nat -> 'a1 list -> 'a1 -> 'a1
+val sub : nat -> nat -> nat
 
-val rev : 'a1 list -> 'a1 list
+module Nat :
+ sig
+  val leb : nat -> nat -> bool
 
-val map : ('a1 -> 'a2) -> 'a1 list -> 'a2 list
+  val ltb : nat -> nat -> bool
+ end
+
+val existsb : ('a1 -> bool) -> 'a1 list -> bool
+
+val firstn : nat -> 'a1 list -> 'a1 list
 
 val skipn : nat -> 'a1 list -> 'a1 list
-
-val seq : nat -> nat -> nat list
-
-val repeat : 'a1 -> nat -> 'a1 list
 
 type positive =
 | XI of positive
@@ -120,19 +129,11 @@ module Z :
 
   val mul : z -> z -> z
 
-  val pow_pos : z -> positive -> z
-
-  val pow : z -> z -> z
-
   val compare : z -> z -> comparison
 
   val leb : z -> z -> bool
 
   val ltb : z -> z -> bool
-
-  val geb : z -> z -> bool
-
-  val gtb : z -> z -> bool
 
   val eqb : z -> z -> bool
 
@@ -148,8 +149,6 @@ module Z :
 
   val div_eucl : z -> z -> z * z
 
-  val div : z -> z -> z
-
   val modulo : z -> z -> z
 
   val div2 : z -> z
@@ -161,89 +160,238 @@ module Z :
   val coq_land : z -> z -> z
  end
 
-val wrap32 : z -> z
+val eAGAIN : z
 
-val tABLE : z list
+val eFBIG : z
 
-val iNV_TABLE : z list
+val eINTR : z
 
-val enc_val0 : z
+val eINVAL : z
 
-val enc_valb0 : z
+val eIO : z
 
-val enc_shift : z
+val eISDIR : z
 
-val enc_valb_add : z
+val eNOSPC : z
 
-val enc_loop_bound : z
+val eNOTSUP : z
 
-val enc_mask : z
+val ePIPE : z
 
-val enc_valb_sub : z
+val eROFS : z
 
-val enc_tail_bound : z
+val sIGABRT : z
 
-val enc_tail_shl : z
+val sIGPIPE : z
 
-val enc_tail_add : z
+val read_retry_errnos : z list
 
-val enc_tail_mask : z
+val read_throw_below : z
 
-val enc_pad_mod : z
+val write_retry_errnos : z list
 
-val pad_char : z
+val write_throw_below : z
 
-val dec_val0 : z
+val fsync_ignored_errnos : z list
 
-val dec_valb0 : z
+val close_failure_aborts : bool
 
-val dec_pad_char : z
+val kBufferSize : z
 
-val dec_reject : z
+val wait_has_signal_branch : bool
 
-val dec_shift : z
+val wait_signal_base : z
 
-val dec_valb_add : z
+val wait_fallback : z
 
-val dec_out_bound : z
+val cache_main_swallows_exceptions : bool
 
-val dec_mask : z
+val foldfilter_main_swallows_exceptions : bool
 
-val dec_valb_sub : z
+val b64filter_main_swallows_exceptions : bool
 
-val tbl : z -> z
+val process_unicode_flushes_cout : bool
 
-val inv : z -> z
+val process_unicode_checks_cout : bool
 
-val sel : z -> z -> z -> z
+val process_unicode_cout_fail_code : z
 
-val enc_drain : nat -> z -> z -> (z list * z) option
+val process_unicode_checks_cin : bool
 
-val drain_fuel : nat
+val mmhsum_flushes_cout : bool
 
-val enc_bytes : z list -> z -> z -> ((z list * z) * z) option
+val mmhsum_checks_cout : bool
 
-val enc_pad : nat -> z list
+val mmhsum_cout_fail_code : z
 
-val base64_encode : z list -> z list option
+val mmhsum_checks_cin : bool
 
-type dres =
-| DOk of z list
-| DBadChar of z
-| DLengthError
+val gigaword_unwrap_flushes_cout : bool
 
-val count_padding_rev : z list -> nat
+val gigaword_unwrap_checks_cout : bool
 
-val count_padding : z list -> nat
+val gigaword_unwrap_cout_fail_code : z
 
-val dec_loop : z list -> z -> z -> dres
+val gigaword_unwrap_checks_cin : bool
 
-val base64_decode : z list -> dres
+val order_independent_hash_flushes_cout : bool
 
-val b64_alphabet : z list
+val order_independent_hash_checks_cout : bool
 
-val alpha : z -> z
+val order_independent_hash_cout_fail_code : z
 
-val rfc4648 : z list -> z list
+val order_independent_hash_checks_cin : bool
 
-val strip_padding : z list -> z list
+type op =
+| OpRead
+| OpWrite
+| OpFsync
+| OpClose
+
+type outcome =
+| Ok of z * z list
+| Err of z
+
+type event = { ev_op : op; ev_fd : z; ev_req : z; ev_data : z list;
+               ev_out : outcome }
+
+val default_outcome : op -> z -> outcome
+
+type 'a res =
+| Val of 'a
+| Exn
+| Abort
+| Fuel
+
+val cast : 'a1 res -> 'a2 res
+
+type 'a m = outcome list -> ('a res * event list) * outcome list
+
+val ret : 'a1 -> 'a1 m
+
+val bind : 'a1 m -> ('a1 -> 'a2 m) -> 'a2 m
+
+val sys :
+  op -> z -> z -> z list -> outcome list -> (outcome * event list) * outcome
+  list
+
+val zmem : z -> z list -> bool
+
+val partial_read :
+  nat -> z -> z -> outcome list -> (z list res * event list) * outcome list
+
+val partialRead : z -> z -> z list m
+
+val write_or_throw :
+  nat -> z -> z list -> outcome list -> (unit res * event list) * outcome list
+
+val writeOrThrow : z -> z list -> unit m
+
+val fSyncIgnoreUnsupported : z -> unit m
+
+val close_scoped_fd : z -> unit m
+
+val in_destructor : 'a1 m -> 'a1 m
+
+type bstream = { bs_fd : z; bs_buf : z list }
+
+val blen : z list -> z
+
+val spillBuffer : bstream -> bstream m
+
+val bs_write : bstream -> z list -> bstream m
+
+val bs_flush : bstream -> bstream m
+
+val bs_destroy : bstream -> unit m
+
+type status =
+| Exited of z
+| Signaled of z
+| StFuel
+
+val status_of : z res -> status
+
+val tool_loop :
+  ('a1 -> z list -> 'a1 * z list) -> z -> nat -> 'a1 -> bstream -> outcome
+  list -> (('a1 * bstream) res * event list) * outcome list
+
+val tool_main :
+  ('a1 -> z list -> 'a1 * z list) -> ('a1 -> z list) -> z -> 'a1 -> z m
+
+val tool_run :
+  ('a1 -> z list -> 'a1 * z list) -> ('a1 -> z list) -> z -> 'a1 -> outcome
+  list -> status * event list
+
+type act =
+| ARead of z * z
+| AWrite of z * z list
+| AFsync of z
+| AClose of z
+| AFlushClose of z * z list
+
+val do_act : act -> unit m
+
+val run_script : act list -> unit m
+
+val script_run : bool -> act list -> outcome list -> status * event list
+
+val ev_failed : event -> bool
+
+val any_failed : event list -> bool
+
+val is_write : op -> bool
+
+val accepted : z -> event list -> z list
+
+val try_write : z -> z list -> bool m
+
+val cout_emit : z list list -> bool -> bool m
+
+val cin_read_all :
+  nat -> outcome list -> (bool res * event list) * outcome list
+
+type ioconf = { io_flushes : bool; io_checks_cout : bool; io_fail_code : 
+                z; io_checks_cin : bool; io_uses_cin : bool }
+
+val cout_part : ioconf -> z list list -> z list list -> z m
+
+val iostream_main : ioconf -> z list list -> z list list -> z m
+
+val iostream_run :
+  ioconf -> z list list -> z list list -> outcome list -> status * event list
+
+val conf_process_unicode : ioconf
+
+val conf_mmhsum : ioconf
+
+val conf_gigaword_unwrap : ioconf
+
+val conf_order_independent_hash : ioconf
+
+type term =
+| TExit of z
+| TSignal of z * bool
+
+val wstatus : term -> z
+
+val wIFEXITED : z -> bool
+
+val wEXITSTATUS : z -> z
+
+val wTERMSIG : z -> z
+
+val wIFSIGNALED : z -> bool
+
+val wait : z -> z
+
+type wrapper =
+| Cache
+| Foldfilter
+| B64filter
+
+val collect : nat list -> nat -> nat option
+
+val swallows : wrapper -> bool
+
+val wrapper_status : wrapper -> nat list -> nat -> term -> bool -> status
